@@ -10,6 +10,7 @@ import hashlib
 import os
 import random
 import sys
+from contextlib import contextmanager
 
 sys.path.insert(0, os.path.dirname(os.path.dirname(os.path.abspath(__file__))))
 
@@ -19,6 +20,29 @@ from specs import ctx_policy as P  # noqa: E402
 
 CATS = [None, "admin", "staff", "nobody"]
 WINDOW_ATTRS = ("min_desired_rounds", "max_desired_rounds", "default_rounds", "vary_rounds", "deprecated", "default_salt_size", "truncate_error")
+
+
+class G(Group):
+    """Group that remembers the case being evaluated (for the witness of an unexpected exception)"""
+
+    last_case = None
+
+    def case(self, ident, nontrivial=True):
+        self.last_case = ident
+        Group.case(self, ident, nontrivial)
+
+
+@contextmanager
+def guarded(g, section):
+    """an exception escaping a call that the property says must succeed is a failure of that case, not a harness crash"""
+    try:
+        yield
+    except Exception as err:  # noqa: BLE001
+        import traceback
+
+        tb = traceback.extract_tb(err.__traceback__)
+        where = [f"{os.path.basename(fr.filename)}:{fr.lineno}" for fr in tb[-4:]]
+        g.fail(f"crash:{section}:{type(err).__name__}", f"call raised unexpectedly: {err}"[:200], {"section": section, "trace": where, "case": repr(g.last_case)[:600]})
 
 
 def state(ctx, hashes):
@@ -37,6 +61,14 @@ def state(ctx, hashes):
                 nu = type(err).__name__
             dec.append(("hash", cat, hs, name, nu))
     return ctx.to_dict(), ctx.to_string(), dec
+
+
+def safe_state(ctx, hashes):
+    """state(), or a marker state if the context can no longer answer at all"""
+    try:
+        return state(ctx, hashes)
+    except Exception as err:  # noqa: BLE001
+        return {"<context unusable>": f"{type(err).__name__}: {err}"[:120]}, "", []
 
 
 def dict_diff(a, b):
@@ -164,6 +196,9 @@ def build(tier, rng):
     facts = c04.load_facts()
     c04.pin_library_rng(rng)
     probes = c04.Probes(facts)
+    for n in c04.POOL:  # load the lazy backends before the snapshot of the global hashers
+        probes.make(n, c04.GRID[n]["vals"][0] if n in c04.GRID else None)
+    globals_before = {n: dict(vars(getattr(H, n))) for n in c04.POOL}
     groups = []
 
     def hashes_for(cfg, extra=()):
@@ -177,59 +212,60 @@ def build(tier, rng):
         return g.check(d is None, key + (":" + d[0] if d else ""), what, dict(wit, differs=d))
 
     # =============================================================================================
-    g = Group(
+    g = G(
         "export-import",
         "CryptContext.to_dict / to_string / from_string / copy / update({}) / load(update=True)",
         ("1500" if not thorough else "15000") + " generated configurations (as in C04: orders, default, deprecated, categories, string-typed numbers, percent / float vary_rounds, 'all' scheme) x {CryptContext(**to_dict()), to_dict(resolve=True), from_string(to_string()), to_string(section=...), copy(), update() / update({}) / load({}, update=True)}: equal to_dict (INI: modulo the type of uninterpreted options), equal to_string, equal decisions; to_dict equals the normalised input",
     )
     n_cfg = 1500 if not thorough else 15000
     for _ in range(n_cfg):
-        cfg, status = c04.gen_config(rng, facts, want_invalid=0)
-        if status != "valid":
-            continue
-        kw = P.to_kwds(cfg)
-        if rng.random() < 0.1:  # alternative key spellings
-            kw = {(k.replace("__", ".") if k.count("__") == 2 and rng.random() < 0.5 else k): v for k, v in kw.items()}
-        wit = {"kwds": kw}
-        g.case(repr(kw))
-        try:
-            ctx = CryptContext(**kw)
-        except Exception as err:  # noqa: BLE001
-            g.fail(f"ctor:{type(err).__name__}", str(err)[:160], wit)
-            continue
-        hs = hashes_for(cfg)
-        st = state(ctx, hs)
-        want = P.normalized_kwds(kw)
-        g.check(st[0] == want, "export:to_dict-is-not-the-input", "to_dict() differs from the (normalised) constructor keywords", dict(wit, differs=dict_diff(st[0], want)))
-        variants = {
-            "dict": lambda: CryptContext(**ctx.to_dict()),
-            "dict-resolved": lambda: CryptContext(**ctx.to_dict(resolve=True)),
-            "load-dict": lambda: _loaded(CryptContext, ctx.to_dict()),
-            "copy": lambda: ctx.copy(),
-            "using": lambda: ctx.using(),
-            "load-context": lambda: _loaded(CryptContext, ctx),
-        }
-        for name, fn in variants.items():
-            o = outcome(fn)
-            if g.check(o[0] == "ok", f"reload:{name}:refused", "exported configuration refused on import", dict(wit, outcome=repr(o)[:200])):
-                same_state(g, f"reload:{name}", "re-imported context differs from the original", st, state(o[1], hs), wit)
-        # INI
-        o = outcome(CryptContext.from_string, st[1])
-        if g.check(o[0] == "ok", "reload:ini:refused", "to_string() output refused by from_string()", dict(wit, ini=st[1], outcome=repr(o)[:200])):
-            st2 = state(o[1], hs)
-            same_state(g, "reload:ini", "context re-imported from INI text differs from the original", (loosen(st[0]), st[1], st[2]), (loosen(st2[0]), st2[1], st2[2]), wit)
-        o = outcome(lambda: CryptContext.from_string(ctx.to_string(section="other"), section="other"))
-        if g.check(o[0] == "ok", "reload:ini-section:refused", "custom section refused", dict(wit, outcome=repr(o)[:200])):
-            g.check(loosen(o[1].to_dict()) == loosen(st[0]), "reload:ini-section", "custom section round trip differs", wit)
-        # empty changes
-        for name, fn in (("update()", lambda: ctx.update()), ("update({})", lambda: ctx.update({})), ("load({},update)", lambda: ctx.load({}, update=True)), ("update(**{})", lambda: ctx.update(**{}))):
-            o = outcome(fn)
-            g.check(o[0] == "ok", f"empty-change:{name}:raised", "empty change raised", dict(wit, outcome=repr(o)[:160]))
-        same_state(g, "empty-change", "an empty change altered the context", st, state(ctx, hs), wit)
+        with guarded(g, "export-import"):
+            cfg, status = c04.gen_config(rng, facts, want_invalid=0)
+            if status != "valid":
+                continue
+            kw = P.to_kwds(cfg)
+            if rng.random() < 0.1:  # alternative key spellings
+                kw = {(k.replace("__", ".") if k.count("__") == 2 and rng.random() < 0.5 else k): v for k, v in kw.items()}
+            wit = {"kwds": kw}
+            g.case(repr(kw))
+            try:
+                ctx = CryptContext(**kw)
+            except Exception as err:  # noqa: BLE001
+                g.fail(f"ctor:{type(err).__name__}", str(err)[:160], wit)
+                continue
+            hs = hashes_for(cfg)
+            st = state(ctx, hs)
+            want = P.normalized_kwds(kw)
+            g.check(st[0] == want, "export:to_dict-is-not-the-input", "to_dict() differs from the (normalised) constructor keywords", dict(wit, differs=dict_diff(st[0], want)))
+            variants = {
+                "dict": lambda: CryptContext(**ctx.to_dict()),
+                "dict-resolved": lambda: CryptContext(**ctx.to_dict(resolve=True)),
+                "load-dict": lambda: _loaded(CryptContext, ctx.to_dict()),
+                "copy": lambda: ctx.copy(),
+                "using": lambda: ctx.using(),
+                "load-context": lambda: _loaded(CryptContext, ctx),
+            }
+            for name, fn in variants.items():
+                o = outcome(fn)
+                if g.check(o[0] == "ok", f"reload:{name}:refused", "exported configuration refused on import", dict(wit, outcome=repr(o)[:200])):
+                    same_state(g, f"reload:{name}", "re-imported context differs from the original", st, state(o[1], hs), wit)
+            # INI
+            o = outcome(CryptContext.from_string, st[1])
+            if g.check(o[0] == "ok", "reload:ini:refused", "to_string() output refused by from_string()", dict(wit, ini=st[1], outcome=repr(o)[:200])):
+                st2 = state(o[1], hs)
+                same_state(g, "reload:ini", "context re-imported from INI text differs from the original", (loosen(st[0]), st[1], st[2]), (loosen(st2[0]), st2[1], st2[2]), wit)
+            o = outcome(lambda: CryptContext.from_string(ctx.to_string(section="other"), section="other"))
+            if g.check(o[0] == "ok", "reload:ini-section:refused", "custom section refused", dict(wit, outcome=repr(o)[:200])):
+                g.check(loosen(o[1].to_dict()) == loosen(st[0]), "reload:ini-section", "custom section round trip differs", wit)
+            # empty changes
+            for name, fn in (("update()", lambda: ctx.update()), ("update({})", lambda: ctx.update({})), ("load({},update)", lambda: ctx.load({}, update=True)), ("update(**{})", lambda: ctx.update(**{}))):
+                o = outcome(fn)
+                g.check(o[0] == "ok", f"empty-change:{name}:raised", "empty change raised", dict(wit, outcome=repr(o)[:160]))
+            same_state(g, "empty-change", "an empty change altered the context", st, state(ctx, hs), wit)
     groups.append(g)
 
     # =============================================================================================
-    g = Group("ini-value-rendering", "CryptContext._render_ini_value / _coerce_scheme_options", "directed: float vary_rounds with three decimals, integer-valued options the context does not coerce (rounds), booleans (truncate_error), percent signs, empty deprecated list, through to_string -> from_string: same to_dict")
+    g = G("ini-value-rendering", "CryptContext._render_ini_value / _coerce_scheme_options", "directed: float vary_rounds with three decimals, integer-valued options the context does not coerce (rounds), booleans (truncate_error), percent signs, empty deprecated list, through to_string -> from_string: same to_dict")
     for key, kw in (
         ("ini-roundtrip:vary-rounds-precision", dict(schemes=["sha256_crypt"], sha256_crypt__vary_rounds=0.125)),
         ("ini-roundtrip:vary-rounds-precision", dict(schemes=["pbkdf2_sha256"], all__vary_rounds=0.005)),
@@ -239,73 +275,75 @@ def build(tier, rng):
         ("ini-roundtrip:empty-list", dict(schemes=["md5_crypt", "des_crypt"], deprecated=["des_crypt"], admin__context__deprecated=[])),
         ("ini-roundtrip:salt-size", dict(schemes=["md5_crypt"], md5_crypt__salt_size="4")),
     ):
-        ctx = CryptContext(**kw)
-        o = outcome(CryptContext.from_string, ctx.to_string())
-        g.case(repr(kw))
-        if g.check(o[0] == "ok", key, "to_string() output refused", {"kwds": kw, "outcome": repr(o)[:160]}):
-            a, b = ctx.to_dict(), o[1].to_dict()
-            g.check(a == b and all(type(a[k]) is type(b[k]) for k in a), key, "to_dict() after to_string -> from_string differs from before (value or type of an option changed)", {"kwds": kw, "before": repr(a), "after": repr(b), "ini": ctx.to_string()})
+        with guarded(g, "ini-value-rendering"):
+            ctx = CryptContext(**kw)
+            o = outcome(CryptContext.from_string, ctx.to_string())
+            g.case(repr(kw))
+            if g.check(o[0] == "ok", key, "to_string() output refused", {"kwds": kw, "outcome": repr(o)[:160]}):
+                a, b = ctx.to_dict(), o[1].to_dict()
+                g.check(a == b and all(type(a[k]) is type(b[k]) for k in a), key, "to_dict() after to_string -> from_string differs from before (value or type of an option changed)", {"kwds": kw, "before": repr(a), "after": repr(b), "ini": ctx.to_string()})
     groups.append(g)
 
     # =============================================================================================
-    g = Group(
+    g = G(
         "update-sequences",
         "CryptContext.update / load(update=True) / copy(**kwds)",
         ("300" if not thorough else "3000") + " generated configurations x sequences of 4 operations out of {update(**delta), update(dict), load(dict, update=True), copy(**delta), export+import as dict / INI, copy()} with deltas taken from a second generated configuration over the same schemes: exported configuration = previous overlaid with exactly the given keys; decisions = those of a context built directly from that dictionary; a refused delta leaves everything unchanged",
     )
     n_seq = 300 if not thorough else 3000
     for _ in range(n_seq):
-        cfg, status = c04.gen_config(rng, facts, want_invalid=0)
-        if status != "valid":
-            continue
-        model = P.normalized_kwds(P.to_kwds(cfg))
-        ctx = CryptContext(**P.to_kwds(cfg))
-        trace = [("init", P.to_kwds(cfg))]
-        for _step in range(4):
-            cfg2, _ = c04.gen_config(rng, facts, schemes=cfg["schemes"], want_invalid=0.05)
-            kw2 = P.to_kwds(cfg2)
-            kw2.pop("schemes")
-            keys = rng.sample(sorted(kw2), rng.randrange(1, min(4, len(kw2)) + 1)) if kw2 else []
-            delta = {k: kw2[k] for k in keys}
-            op = rng.choice(["update-kw", "update-dict", "load-update", "copy-kw", "via-dict", "via-ini", "copy"])
-            trace.append((op, delta if "update" in op or op == "copy-kw" else None))
-            g.case(repr(trace))
-            wit = {"trace": trace}
-            hs = hashes_for(cfg) + hashes_for(cfg2)
-            if op in ("via-dict", "via-ini", "copy"):
-                new = {"via-dict": lambda: CryptContext(**ctx.to_dict()), "via-ini": lambda: CryptContext.from_string(ctx.to_string()), "copy": lambda: ctx.copy()}[op]()
-                g.check(loosen(new.to_dict()) == loosen(model), f"sequence:{op}", "exported configuration after the step differs from the model", dict(wit, differs=dict_diff(loosen(new.to_dict()), loosen(model))))
-                if op != "via-ini":
-                    ctx = new
+        with guarded(g, "update-sequences"):
+            cfg, status = c04.gen_config(rng, facts, want_invalid=0)
+            if status != "valid":
                 continue
-            if not delta:
-                continue
-            want = dict(model)
-            want.update(P.normalized_kwds(delta))
-            ref = outcome(lambda: CryptContext(**want))
-            before = state(ctx, hs)
-            if op == "copy-kw":
-                o = outcome(lambda: ctx.copy(**delta))
-                same_state(g, "sequence:copy-changed-original", "copy(**kwds) altered the original", before, state(ctx, hs), wit)
-                target = o[1] if o[0] == "ok" else None
-            else:
-                o = outcome({"update-kw": lambda: ctx.update(**delta), "update-dict": lambda: ctx.update(delta), "load-update": lambda: ctx.load(delta, update=True)}[op])
-                target = ctx
-            g.check((o[0] == "ok") == (ref[0] == "ok"), "sequence:accept-differs", "update accepted / refused differently from building the merged configuration directly", dict(wit, update=repr(o)[:160], direct=repr(ref)[:160]))
-            if o[0] != "ok":
+            model = P.normalized_kwds(P.to_kwds(cfg))
+            ctx = CryptContext(**P.to_kwds(cfg))
+            trace = [("init", P.to_kwds(cfg))]
+            for _step in range(4):
+                cfg2, _ = c04.gen_config(rng, facts, schemes=cfg["schemes"], want_invalid=0.05)
+                kw2 = P.to_kwds(cfg2)
+                kw2.pop("schemes")
+                keys = rng.sample(sorted(kw2), rng.randrange(1, min(4, len(kw2)) + 1)) if kw2 else []
+                delta = {k: kw2[k] for k in keys}
+                op = rng.choice(["update-kw", "update-dict", "load-update", "copy-kw", "via-dict", "via-ini", "copy"])
+                trace.append((op, delta if "update" in op or op == "copy-kw" else None))
+                g.case(repr(trace))
+                wit = {"trace": trace}
+                hs = hashes_for(cfg) + hashes_for(cfg2)
+                if op in ("via-dict", "via-ini", "copy"):
+                    new = {"via-dict": lambda: CryptContext(**ctx.to_dict()), "via-ini": lambda: CryptContext.from_string(ctx.to_string()), "copy": lambda: ctx.copy()}[op]()
+                    g.check(loosen(new.to_dict()) == loosen(model), f"sequence:{op}", "exported configuration after the step differs from the model", dict(wit, differs=dict_diff(loosen(new.to_dict()), loosen(model))))
+                    if op != "via-ini":
+                        ctx = new
+                    continue
+                if not delta:
+                    continue
+                want = dict(model)
+                want.update(P.normalized_kwds(delta))
+                ref = outcome(lambda: CryptContext(**want))
+                before = state(ctx, hs)
+                if op == "copy-kw":
+                    o = outcome(lambda: ctx.copy(**delta))
+                    same_state(g, "sequence:copy-changed-original", "copy(**kwds) altered the original", before, state(ctx, hs), wit)
+                    target = o[1] if o[0] == "ok" else None
+                else:
+                    o = outcome({"update-kw": lambda: ctx.update(**delta), "update-dict": lambda: ctx.update(delta), "load-update": lambda: ctx.load(delta, update=True)}[op])
+                    target = ctx
+                g.check((o[0] == "ok") == (ref[0] == "ok"), "sequence:accept-differs", "update accepted / refused differently from building the merged configuration directly", dict(wit, update=repr(o)[:160], direct=repr(ref)[:160]))
+                if o[0] != "ok":
+                    if op != "copy-kw":
+                        same_state(g, "failed-update", "a refused update altered the context", before, state(ctx, hs), wit)
+                    continue
+                g.check(target.to_dict() == want, "sequence:replaces-exactly-given-keys", "configuration after update() is not the previous one overlaid with the given keys", dict(wit, differs=dict_diff(target.to_dict(), want)))
+                if ref[0] == "ok":
+                    same_state(g, "sequence:decisions", "updated context decides differently from one built from the merged configuration", state(ref[1], hs), state(target, hs), wit)
                 if op != "copy-kw":
-                    same_state(g, "failed-update", "a refused update altered the context", before, state(ctx, hs), wit)
-                continue
-            g.check(target.to_dict() == want, "sequence:replaces-exactly-given-keys", "configuration after update() is not the previous one overlaid with the given keys", dict(wit, differs=dict_diff(target.to_dict(), want)))
-            if ref[0] == "ok":
-                same_state(g, "sequence:decisions", "updated context decides differently from one built from the merged configuration", state(ref[1], hs), state(target, hs), wit)
-            if op != "copy-kw":
-                model = want
-            cfg = cfg if op == "copy-kw" else cfg  # probe set keeps growing through hs above
+                    model = want
+                cfg = cfg if op == "copy-kw" else cfg  # probe set keeps growing through hs above
     groups.append(g)
 
     # =============================================================================================
-    g = Group(
+    g = G(
         "failed-change",
         "CryptContext.load (build new _CryptConfig, then swap)",
         ("40" if not thorough else "400") + " generated configurations x every kind of invalid change (unknown scheme at every list position, duplicate scheme, unknown / forbidden / unsupported option on the scheme at every position and per category, unknown context key, default not configured, deprecated default, all deprecated, unknown deprecated, auto + names, vary_rounds <0 / >1 / unparsable, min above max, default outside window, unparsable / mistyped numbers, mistyped schemes / default / deprecated, malformed keys) x offending item first / middle / last among harmless changes x {update(**kw), update(dict), load(dict, update=True), load(full dict), load(full INI), copy(**kw)}: whenever the call raises, to_dict / to_string / decisions are those from before",
@@ -313,51 +351,53 @@ def build(tier, rng):
     kinds_failed, kinds_accepted = set(), set()
     n_bad = 40 if not thorough else 400
     for _ in range(n_bad):
-        cfg, status = c04.gen_config(rng, facts, want_invalid=0)
-        if status != "valid":
-            continue
-        kw = P.to_kwds(cfg)
-        ctx = CryptContext(**kw)
-        hs = hashes_for(cfg)
-        before = state(ctx, hs)
-        cfg2, _ = c04.gen_config(rng, facts, schemes=cfg["schemes"], want_invalid=0)
-        filler = {k: v for k, v in P.to_kwds(cfg2).items() if k != "schemes"}
-        filler = dict(list(filler.items())[:3])
-        for kind, change in invalid_changes(cfg, kw, rng):
-            for pos in (0, 1, 2) if thorough or rng.random() < 0.34 else (rng.randrange(3),):
-                delta = embed(change, filler, pos)
-                full = dict(before[0])
-                full.update(delta)
-                ways = {
-                    "update-kw": lambda: ctx.update(**delta),
-                    "update-dict": lambda: ctx.update(delta),
-                    "load-update": lambda: ctx.load(delta, update=True),
-                    "load-full": lambda: ctx.load(full),
-                    "copy-kw": lambda: ctx.copy(**delta),
-                }
-                ini = ini_of(full)
-                if ini is not None:
-                    ways["load-ini"] = lambda: ctx.load(ini)
-                    ini_d = ini_of(delta)
-                    if ini_d is not None:
-                        ways["load-ini-update"] = lambda: ctx.load(ini_d, update=True)
-                for way, fn in ways.items():
-                    if not thorough and rng.random() < 0.5:
-                        continue
-                    o = outcome(fn)
-                    g.case((repr(kw), kind, pos, way))
-                    base_kind = kind.split("@")[0]
-                    if o[0] == "exc":
-                        kinds_failed.add(base_kind)
-                        same_state(g, f"failed-change:{base_kind}", f"the context answers differently after a failed {way}", before, state(ctx, hs), {"kwds": kw, "change": repr(delta), "way": way, "error": o[1:3]})
-                    else:
-                        kinds_accepted.add(base_kind)
-                        if way != "copy-kw":  # the change went through: start again from the original configuration
-                            ctx = CryptContext(**kw)
+        with guarded(g, "failed-change"):
+            cfg, status = c04.gen_config(rng, facts, want_invalid=0)
+            if status != "valid":
+                continue
+            kw = P.to_kwds(cfg)
+            ctx = CryptContext(**kw)
+            hs = hashes_for(cfg)
+            before = state(ctx, hs)
+            cfg2, _ = c04.gen_config(rng, facts, schemes=cfg["schemes"], want_invalid=0)
+            filler = {k: v for k, v in P.to_kwds(cfg2).items() if k != "schemes"}
+            filler = dict(list(filler.items())[:3])
+            for kind, change in invalid_changes(cfg, kw, rng):
+                for pos in (0, 1, 2) if thorough or rng.random() < 0.34 else (rng.randrange(3),):
+                    delta = embed(change, filler, pos)
+                    full = dict(before[0])
+                    full.update(delta)
+                    ways = {
+                        "update-kw": lambda: ctx.update(**delta),
+                        "update-dict": lambda: ctx.update(delta),
+                        "load-update": lambda: ctx.load(delta, update=True),
+                        "load-full": lambda: ctx.load(full),
+                        "copy-kw": lambda: ctx.copy(**delta),
+                    }
+                    ini = ini_of(full)
+                    if ini is not None:
+                        ways["load-ini"] = lambda: ctx.load(ini)
+                        ini_d = ini_of(delta)
+                        if ini_d is not None:
+                            ways["load-ini-update"] = lambda: ctx.load(ini_d, update=True)
+                    for way, fn in ways.items():
+                        if not thorough and rng.random() < 0.5:
+                            continue
+                        o = outcome(fn)
+                        g.case((repr(kw), kind, pos, way))
+                        base_kind = kind.split("@")[0]
+                        if o[0] == "exc":
+                            kinds_failed.add(base_kind)
+                            if not same_state(g, f"failed-change:{base_kind}", f"the context answers differently after a failed {way}", before, safe_state(ctx, hs), {"kwds": kw, "change": repr(delta), "way": way, "error": o[1:3]}):
+                                ctx = CryptContext(**kw)
+                        else:
+                            kinds_accepted.add(base_kind)
+                            if way != "copy-kw":  # the change went through: start again from the original configuration
+                                ctx = CryptContext(**kw)
     groups.append(g)
 
     # =============================================================================================
-    g = Group(
+    g = G(
         "raising-hasher",
         "CryptContext.load exception atomicity / _CryptConfig._init_records",
         "custom unregistered hashers passed as objects (export with resolve=True, copy, update); a custom hasher at every position of a 2..4 scheme context with two categories whose using() raises RuntimeError / ValueError / KeyError / TypeError at its k-th call, k = 1..n+1 (n = calls of a successful load), during update(), load(full), copy(**kw): on failure context state, the other schemes' global hashers and the custom class unchanged; at k = n+1 the change is applied",
@@ -397,75 +437,84 @@ def build(tier, rng):
 
     n_ctx = 12 if not thorough else 120
     for _ in range(n_ctx):
-        others = rng.sample(cheap, rng.randrange(1, 4))
-        pos = rng.randrange(len(others) + 1)
-        cfg, _ = c04.gen_config(rng, facts, schemes=others, want_invalid=0)
-        kw = P.to_kwds(cfg)
-        objs = list(others)
-        objs.insert(pos, Boom)
-        if rng.random() < 0.5:
-            objs.append(Plain)
-        kw["schemes"] = objs
-        kw.setdefault("admin__context__deprecated", [])  # a category-specific setting: more records to build
-        Fuse.left = None
-        try:
-            ctx = CryptContext(**kw)
-        except Exception as err:  # noqa: BLE001
-            g.fail(f"custom:ctor:{type(err).__name__}", f"context with custom hasher objects refused: {err}"[:200], {"kwds": repr(kw)})
-            continue
-        hs = hashes_for(cfg, [boom_hash, plain_hash])
-        before = state(ctx, hs)
-        wit = {"kwds": repr(kw)}
-        g.case(("custom-roundtrip", repr(kw)))
-        g.check(ctx.identify(boom_hash) == "boom_hash", "custom:identify", "custom hasher's hash not attributed to it", wit)
-        for name, fn in (("dict-resolved", lambda: CryptContext(**ctx.to_dict(resolve=True))), ("copy", lambda: ctx.copy()), ("load-context", lambda: _loaded(CryptContext, ctx))):
-            o = outcome(fn)
-            if g.check(o[0] == "ok", f"custom:{name}:refused", "export with custom hasher objects refused on import", dict(wit, outcome=repr(o)[:200])):
-                same_state(g, f"custom:{name}", "re-imported context with custom hashers differs", before, state(o[1], hs), wit)
-                g.check(o[1].to_dict(resolve=True)["schemes"] == ctx.to_dict(resolve=True)["schemes"], f"custom:{name}:objects", "custom hasher objects not carried over", wit)
-        # a harmless change and the number of using() calls it takes
-        first = others[0]
-        delta = {"staff__context__deprecated": [first] if len(objs) > 1 and ctx.default_scheme(category="staff") != first else [], "admin__context__default": "boom_hash"}
-        full = dict(ctx.to_dict(resolve=True))
-        full.update(delta)
-        ops = {"update": lambda c: c.update(**delta), "load-full": lambda c: c.load(full), "copy-kw": lambda c: c.copy(**delta)}
-        gnames = [n for n in others]
-        for opname, op in ops.items():
-            Fuse.left, Fuse.calls = None, 0
-            trial = ctx.copy()
-            calls0 = Fuse.calls
-            o = outcome(op, trial)
-            n_calls = Fuse.calls - calls0
-            if not g.check(o[0] == "ok" and n_calls >= 1, "custom:harmless-change-refused", "harmless change refused / custom hasher never customised", dict(wit, op=opname, outcome=repr(o)[:200], calls=n_calls)):
+        with guarded(g, "raising-hasher"):
+            others = rng.sample(cheap, rng.randrange(1, 4))
+            pos = rng.randrange(len(others) + 1)
+            cfg, _ = c04.gen_config(rng, facts, schemes=others, want_invalid=0)
+            kw = P.to_kwds(cfg)
+            objs = list(others)
+            objs.insert(pos, Boom)
+            if rng.random() < 0.5:
+                objs.append(Plain)
+            kw["schemes"] = objs
+            kw.setdefault("admin__context__deprecated", [])  # a category-specific setting: more records to build
+            Fuse.left = None
+            try:
+                ctx = CryptContext(**kw)
+            except Exception as err:  # noqa: BLE001
+                g.fail(f"custom:ctor:{type(err).__name__}", f"context with custom hasher objects refused: {err}"[:200], {"kwds": repr(kw)})
                 continue
-            after_ok = state(trial if opname != "copy-kw" else o[1], hs)
-            for exc in (RuntimeError, ValueError, KeyError, TypeError):
-                for k in range(1, n_calls + 2):
-                    if not thorough and exc is not RuntimeError and k not in (1, n_calls, n_calls + 1):
-                        continue
-                    Fuse.left = None
-                    victim = ctx.copy()
-                    vb = state(victim, hs)
-                    gb = global_snapshot(gnames)
-                    bb = dict(vars(Boom))
-                    Fuse.left, Fuse.exc = k, exc
-                    o = outcome(op, victim)
-                    Fuse.left = None
-                    g.case((repr(kw), opname, exc.__name__, k))
-                    w2 = dict(wit, op=opname, raises=exc.__name__, at_call=k, of=n_calls, outcome=repr(o)[:160])
-                    if k <= n_calls:
-                        g.check(o[0] == "exc", "raising-hasher:error-swallowed", "the hasher's exception did not surface", w2)
-                    if o[0] == "exc":
-                        same_state(g, "raising-hasher:context-changed", "the context answers differently after a load that failed inside a hasher's using()", vb, state(victim, hs), w2)
-                    else:
-                        res = victim if opname != "copy-kw" else o[1]
-                        same_state(g, "raising-hasher:late-fuse", "with the fuse beyond the last call the change is not the normal one", after_ok, state(res, hs), w2)
-                    ga = global_snapshot(gnames)
-                    changed = [n for n in gnames if set(ga[n]) != set(gb[n]) or any(ga[n][a] is not gb[n][a] and ga[n][a] != gb[n][a] for a in ga[n])]
-                    g.check(not changed, "raising-hasher:global-hasher-changed", "a passlib.hash object changed during the failed load", dict(w2, changed=changed))
-                    ba = dict(vars(Boom))
-                    g.check(set(ba) == set(bb) and all(ba[a] is bb[a] or ba[a] == bb[a] for a in ba), "raising-hasher:custom-class-changed", "the custom hasher class was written to", w2)
-        Fuse.left = None
+            hs = hashes_for(cfg, [boom_hash, plain_hash])
+            before = state(ctx, hs)
+            wit = {"kwds": repr(kw)}
+            g.case(("custom-roundtrip", repr(kw)))
+            g.check(ctx.identify(boom_hash) == "boom_hash", "custom:identify", "custom hasher's hash not attributed to it", wit)
+            for name, fn in (("dict-resolved", lambda: CryptContext(**ctx.to_dict(resolve=True))), ("copy", lambda: ctx.copy()), ("load-context", lambda: _loaded(CryptContext, ctx))):
+                o = outcome(fn)
+                if g.check(o[0] == "ok", f"custom:{name}:refused", "export with custom hasher objects refused on import", dict(wit, outcome=repr(o)[:200])):
+                    same_state(g, f"custom:{name}", "re-imported context with custom hashers differs", before, state(o[1], hs), wit)
+                    g.check(o[1].to_dict(resolve=True)["schemes"] == ctx.to_dict(resolve=True)["schemes"], f"custom:{name}:objects", "custom hasher objects not carried over", wit)
+            # a harmless change and the number of using() calls it takes
+            first = others[0]
+            delta = {"staff__context__deprecated": [first] if len(objs) > 1 and ctx.default_scheme(category="staff") != first else [], "admin__context__default": "boom_hash"}
+            full = dict(ctx.to_dict(resolve=True))
+            full.update(delta)
+            ops = {"update": lambda c: c.update(**delta), "load-full": lambda c: c.load(full), "copy-kw": lambda c: c.copy(**delta)}
+            gnames = [n for n in others]
+            for opname, op in ops.items():
+                Fuse.left, Fuse.calls = None, 0
+                trial = ctx.copy()
+                calls0 = Fuse.calls
+                o = outcome(op, trial)
+                n_calls = Fuse.calls - calls0
+                if not g.check(o[0] == "ok" and n_calls >= 1, "custom:harmless-change-refused", "harmless change refused / custom hasher never customised", dict(wit, op=opname, outcome=repr(o)[:200], calls=n_calls)):
+                    continue
+                after_ok = state(trial if opname != "copy-kw" else o[1], hs)
+                for exc in (RuntimeError, ValueError, KeyError, TypeError):
+                    for k in range(1, n_calls + 2):
+                        if not thorough and exc is not RuntimeError and k not in (1, n_calls, n_calls + 1):
+                            continue
+                        Fuse.left = None
+                        victim = ctx.copy()
+                        vb = state(victim, hs)
+                        gb = global_snapshot(gnames)
+                        bb = dict(vars(Boom))
+                        Fuse.left, Fuse.exc = k, exc
+                        o = outcome(op, victim)
+                        Fuse.left = None
+                        g.case((repr(kw), opname, exc.__name__, k))
+                        w2 = dict(wit, op=opname, raises=exc.__name__, at_call=k, of=n_calls, outcome=repr(o)[:160])
+                        if k <= n_calls:
+                            g.check(o[0] == "exc", "raising-hasher:error-swallowed", "the hasher's exception did not surface", w2)
+                        if o[0] == "exc":
+                            same_state(g, "raising-hasher:context-changed", "the context answers differently after a load that failed inside a hasher's using()", vb, safe_state(victim, hs), w2)
+                        else:
+                            res = victim if opname != "copy-kw" else o[1]
+                            same_state(g, "raising-hasher:late-fuse", "with the fuse beyond the last call the change is not the normal one", after_ok, state(res, hs), w2)
+                        ga = global_snapshot(gnames)
+                        changed = [n for n in gnames if set(ga[n]) != set(gb[n]) or any(ga[n][a] is not gb[n][a] and ga[n][a] != gb[n][a] for a in ga[n])]
+                        g.check(not changed, "raising-hasher:global-hasher-changed", "a passlib.hash object changed during the failed load", dict(w2, changed=changed))
+                        ba = dict(vars(Boom))
+                        g.check(set(ba) == set(bb) and all(ba[a] is bb[a] or ba[a] == bb[a] for a in ba), "raising-hasher:custom-class-changed", "the custom hasher class was written to", w2)
+            Fuse.left = None
+    groups.append(g)
+    g = G("global-hashers-untouched", "_CryptConfig._create_record (writes only the fresh subclass)", "class __dict__ of every pool hasher in passlib.hash after all contexts, failed loads and raising hashers above: identical to the one taken at the start")
+    for n in c04.POOL:
+        after = dict(vars(getattr(H, n)))
+        before_n = globals_before[n]
+        changed = sorted(k for k in set(after) | set(before_n) if k not in after or k not in before_n or not (after[k] is before_n[k] or after[k] == before_n[k]))
+        g.case(n)
+        g.check(not changed, f"globals:{n}", "a passlib.hash object was written to while contexts were built / loaded", {"hasher": n, "changed": changed[:8]})
     groups.append(g)
     return groups, [], {"invalid_kinds_refused": sorted(kinds_failed), "invalid_kinds_accepted_at_least_once": sorted(kinds_accepted)}
 
